@@ -1033,11 +1033,41 @@ func c05ProjCase(c *core.Ctx, id string) {
 	ts := p.AllTargets()
 	// close a cycle: self-dependency, two-cycle, or a back edge from something deep to something that reaches it
 	a := ts[r.IntN(len(ts))]
-	kind := []string{"self", "back-edge", "back-edge"}[r.IntN(3)]
+	kind := []string{"self", "back-edge", "back-edge", "through-generated-file", "through-generated-file", "rewrites-its-own-source"}[r.IntN(6)]
 	e := pj.NewEngine(s, p, g)
+	var withGen []*pj.Tgt
+	for _, t := range ts {
+		if t.Gen != "" {
+			withGen = append(withGen, t)
+		}
+	}
+	if len(withGen) == 0 && kind != "self" {
+		kind = "back-edge"
+	}
+	onlyCycleMembers := false
 	switch kind {
 	case "self":
 		a.Deps = append(a.Deps, a.Label())
+	case "through-generated-file":
+		// a generates a file that b lists as a source, and a depends on b: the cycle runs through the implicit edge from
+		// the generated source file to its generator
+		a = withGen[r.IntN(len(withGen))]
+		b := ts[r.IntN(len(ts))]
+		if b == a || contains2(e.Closure(a.Label()), b.Label()) && false {
+			b = a
+		}
+		if b == a {
+			kind = "rewrites-its-own-source"
+			a.GenSrc = append(a.GenSrc, a.Label())
+		} else {
+			b.GenSrc = append(b.GenSrc, a.Label())
+			a.Deps = append(a.Deps, b.Label())
+		}
+		onlyCycleMembers = true
+	case "rewrites-its-own-source":
+		a = withGen[r.IntN(len(withGen))]
+		a.GenSrc = append(a.GenSrc, a.Label()) // sources=[its own generated file]
+		onlyCycleMembers = true
 	default:
 		cl := e.Closure(a.Label())
 		b := p.Target(cl[r.IntN(len(cl))])
@@ -1053,6 +1083,9 @@ func c05ProjCase(c *core.Ctx, id string) {
 		if contains2(e.Closure(t.Label()), a.Label()) {
 			reqs = append(reqs, t.Label())
 		}
+	}
+	if onlyCycleMembers && r.IntN(2) == 0 {
+		reqs = []string{a.Label()} // the generator itself is requested: the source-file node is the one that closes the cycle
 	}
 	lv := &pj.Live{}
 	for round := 0; round < 4; round++ {
